@@ -50,6 +50,14 @@ impl<AS: GuestAddressSpace> Vsock<AS> {
     }
 }
 
+#[cfg(feature = "verif-hooks")]
+impl<AS: GuestAddressSpace> Vsock<AS> {
+    /// Verification hook: wrap an arbitrary descriptor instead of opening /dev/vhost-vsock.
+    pub fn verif_with(fd: File, mem: AS) -> Self {
+        Vsock { fd, mem }
+    }
+}
+
 impl<AS: GuestAddressSpace> VhostVsock for Vsock<AS> {
     fn set_guest_cid(&self, cid: u64) -> Result<()> {
         // SAFETY: This ioctl is called on a valid vhost-vsock fd and has its
